@@ -146,7 +146,7 @@ class TlSchemas:
                 elif isinstance(value, bytes):
                     result += value[:byte_len][::-1] + b'\x00' * max(0, byte_len - len(value))
                 elif isinstance(value, int):
-                    result += value.to_bytes(length=byte_len, byteorder='little', signed=True)
+                    result += value.to_bytes(length=byte_len, byteorder='little', signed=type_ != '#')
                 elif isinstance(value, str):
                     result += bytes.fromhex(value)
             else:
@@ -249,7 +249,7 @@ class TlSchemas:
                     elif type_ in ('int128', 'int256'):
                         result[field] = data[i:i + byte_len].hex()
                     else:
-                        result[field] = int.from_bytes(data[i:i + byte_len], 'little', signed=True)
+                        result[field] = int.from_bytes(data[i:i + byte_len], 'little', signed=type_ != '#')
                     i += byte_len
                 else:
                     if type_ in ('bytes', 'string'):
